@@ -706,6 +706,20 @@ func (e *SpecEnv) call(x ECall) SVal {
 			cs = append(cs, Eq(e.W.Sorts.Elt(arr, SOff(v.T), IntLit(int64(i))), IntLit(int64(lit.Val[i]))))
 		}
 		return SVal{T: And(cs...), Go: boolT}
+	case "boundis": // boundis(f, T, "m"): function value f is a method value x.m with x of type T
+		v := e.value(e.eval(x.Args[0]))
+		t := e.typeArg(x.Args[1])
+		lit, ok := x.Args[2].(EStr)
+		if !ok {
+			sfail("boundis(f, T, \"method\")")
+		}
+		bw := e.W.boundWrapper(t, lit.Val)
+		if bw == nil {
+			sfail("boundis: no method value %s.%s occurs in the module", typeName(t), lit.Val)
+		}
+		id := e.W.FnID(bw)
+		e.Side.UseFnID(id)
+		return SVal{T: Eq(App("fncode!", SInt, v.T), IntLit(int64(id))), Go: boolT}
 	case "mem": // mem(s): the backing array of slice s as a spec array
 		v := e.value(e.eval(x.Args[0]))
 		st, ok := v.Go.Underlying().(*types.Slice)
